@@ -141,7 +141,7 @@ static const char *CMN0 = "40,3,-1";
 static void pattern_class(const vd_pattern *p, char *buf, size_t n)
 {
     static const char *st[] = { "chunks2048", "one_call", "random_chunks", "tiny_chunks", "first_chunk_lt_1_frame", "huge_chunks", "short_then_rest" };
-    snprintf(buf, n, "%s%s%s%s", p->full_utt ? "full_utt" : st[p->style], p->use_float ? "+float32" : "", p->no_search_chunks ? (p->no_search_chunks < 0 ? "+all_buffered" : "+buffered_prefix") : "", p->partial_prob > 0 ? "+partial_queries" : "");
+    snprintf(buf, n, "%s%s%s%s", p->full_utt ? "full_utt" : st[p->style], p->use_float ? "+float32" : "", p->no_search_chunks ? (p->no_search_chunks < 0 ? "+all_buffered" : "+buffered_prefix") : p->no_search_prob > 0 ? "+interleaved_buffering" : "", p->partial_prob > 0 ? "+partial_queries" : "");
 }
 static void run_c07(long i, vh_rng *r)
 {
@@ -185,6 +185,7 @@ static void run_c07(long i, vh_rng *r)
         vd_pattern_random(r, &p, strcmp(cfg.cmn, "batch") != 0);
         if (v == 0) { p.full_utt = 0; p.style = 4; }                      /* always: first chunk shorter than one frame */
         if (v == 1) { p.full_utt = 0; p.style = 2; p.no_search_chunks = vh_range(r, 1, 5); }
+        if (v == 2) { p.full_utt = 0; p.style = VH_PICK(r, ((int[]){ 0, 2, 2 })); p.no_search_chunks = 0; p.no_search_prob = 0.5; if (p.partial_prob < 0.4) p.partial_prob = 0.6; }   /* searched and buffered pieces interleaved, with queries in between */
         if (p.style == 3 && a.n > 30000) p.style = 2;
         vd_pattern_desc(&p, pdesc, sizeof(pdesc)); pattern_class(&p, pcls, sizeof(pcls));
         vh_rng_init(&pr, vh_seed + 77, (uint64_t)(i * 16 + v));
@@ -197,6 +198,7 @@ static void run_c07(long i, vh_rng *r)
         vh_count("variants_compared", 1);
         vh_count(vh_path("variant_%s", p.full_utt ? "full_utt" : p.style == 4 ? "first_chunk_lt_1_frame" : p.style == 3 ? "tiny_chunks" : p.style == 5 ? "huge_chunks" : p.style == 1 ? "one_call" : "other_chunks"), 1);
         if (p.no_search_chunks) vh_count("variant_buffered", 1);
+        if (p.no_search_prob > 0) vh_count("variant_interleaved_buffering", 1);
         if (p.use_float) vh_count("variant_float32", 1);
         if (i % 25 == 3 && v == 2) vh_sample("%s; audio %s; reference \"%s\" score %d, %d segments, alignment %d states; variant [%s] identical", g.desc, a.desc, ref.res.has_hyp ? ref.res.hyp : "(none)", ref.res.score, ref.res.nseg, ref.align_states, pdesc);
         record_free(&got);
